@@ -10,10 +10,10 @@ SPEC = {
     'known_aliases': ['Wcbor', 'Wmsgpack', 'Wsimple', 'Wbinc', 'Wjson', 'C01', 'C15'],
     'harness': 'c11',
     'args': {
-        'quick': ['-seq', 4000, '-model', 600],
-        'thorough': ['-seq', 60000, '-model', 6000],
+        'quick': ['-seq', 4000, '-model', 600, '-long', 1, '-deep', 2],
+        'thorough': ['-seq', 60000, '-model', 6000, '-long', 6, '-deep', 12],
     },
-    'search_args': ['-seq', 20000, '-model', 1500],
+    'search_args': ['-seq', 20000, '-model', 1500, '-long', 3, '-deep', 6],
     'eval_timeout': {'quick': 600, 'thorough': 2400},
     'assumptions': [
         'typed decoding consumes the bytes decoding into interface{} consumes (the wire models have one decode parser; the typed drivers calls are modelled as functions of the decoded tree, Generic/Dec.v); checked on the implementation by the seq stream (NumBytesRead after typed / naked / Raw / struct-with-unknown-fields positions)',
